@@ -84,6 +84,7 @@ def _exporter(ctx, model):
            f"_map_multi_children_op {fold}: operands reach ast.BinOp in the "
            "wrong order")
 
+    _export_constant(ctx, model, mp)
     nt = model.nodes
     for cls, (kind, sym, fields) in sorted(DENOT.items()):
         try:
@@ -109,6 +110,68 @@ def _exporter(ctx, model):
                    f"{cls} exported as {why}" if ok else
                    f"PymbolicToASTMapper.{mem.node.name} ({cls}): {why}",
                    {"denotes": sym or kind})
+
+
+def _export_constant(ctx, model, mp):
+    """a number reaches the generated code through ast.unparse, which writes a
+    Constant node as the bare repr of its value: for a negative number that is
+    '-2', and '-2 ** x' is -(2 ** x).  So a possibly negative number must not
+    be exported as a bare ast.Constant (path rule on map_constant)."""
+    from ..summary import facts_of
+    mem = model.lookup(mp, "map_constant")
+    if mem is None or mem.kind != "func":
+        raise AnalysisError("PymbolicToASTMapper.map_constant not found")
+    n_ret = 0
+    ok = True
+    for ps in summarize(mem.node):
+        if ps.term != "return":
+            continue
+        n_ret += 1
+        rv = ps.retval
+        if not (isinstance(rv, tuple) and rv[0] == "call" and
+                rv[1] in ("ast.Constant", "ast.Num") and rv[2] and
+                rv[2][0] == NODE):
+            continue            # not the value itself as a bare constant
+        facts = [f for _, pol, c in ps.conds if isinstance(c, tuple)
+                 for f in facts_of(c, pol)]
+        nonneg = False
+        for v, pol in facts:
+            if isinstance(v, tuple) and v[0] == "compare" and len(v[1]) == 1 \
+                    and v[2] == NODE and v[3][0] == ("const", 0):
+                op = v[1][0]
+                if (op == "Lt" and not pol) or (op == "GtE" and pol) or \
+                        (op == "Gt" and pol):
+                    nonneg = True
+            # "not (a real number and negative)": the unsplit false conjunction
+            if isinstance(v, tuple) and v[0] == "boolop" and v[1] == "And" and \
+                    not pol:
+                has_neg = any(x[0] == "compare" and x[1] == ("Lt",)
+                              and x[2] == NODE and x[3][0] == ("const", 0)
+                              for x in v[2] if isinstance(x, tuple))
+                reals = [str(x[2][1]) for x in v[2] if isinstance(x, tuple)
+                         and x[0] == "call" and x[1] == "isinstance"
+                         and x[2][0] == NODE]
+                others = [x for x in v[2] if not (
+                    isinstance(x, tuple) and (
+                        (x[0] == "compare" and x[2] == NODE)
+                        or (x[0] == "call" and x[1] == "isinstance")))]
+                if has_neg and not others and all(
+                        "'int'" in r and "'float'" in r for r in reals):
+                    nonneg = True
+            # text and truth values have no sign
+            if isinstance(v, tuple) and v[0] == "call" and v[1] == "isinstance" \
+                    and v[2][0] == NODE and pol and str(v[2][1]) in (
+                        "('global', 'str')", "('global', 'bool')"):
+                nonneg = True
+        ok = ok and nonneg
+    ctx.floor("exporter map_constant returning paths", n_ret, 1)
+    ctx.ob("E/exporter/Constant/negative-not-bare", ok, where(mem),
+           "a negative number is never exported as a bare ast.Constant" if ok else
+           "PymbolicToASTMapper.map_constant exports any number as a bare "
+           "ast.Constant; ast.unparse writes Constant(-2) as '-2', so "
+           "Power(-2, x) becomes '-2 ** x' == -(2 ** x): "
+           "to_evaluatable_python_function(Power(-2, x)) returns -4 at x = 2, "
+           "evaluation gives 4")
 
 
 def model_resolve(model, mp, n):
